@@ -322,7 +322,7 @@ def run(ctx):
     # the end-of-trace lint visits every thread
     from rules import listlinks
     listlinks.check(ctx, "R8.4", lambda file, name: file.startswith("src/emu/") and file.endswith("/setup.c") and
-                    "lint" in name, minimum=6)
+                    "lint" in name, minimum=3)
     ctx.rule("R8.5", "the infrastructure the stack discipline rests on: value_is_equal (matching the popped value with the top) compares type and payload, extend_get returns the per-thread state of the model that stored it, chan_read yields the top of the stack")
     from rules import infra
     infra.check_value(ctx, 'R8.5'); infra.check_extend(ctx, 'R8.5'); infra.check_chan_read(ctx, 'R8.5')
